@@ -43,6 +43,12 @@ pub fn exec(func: &str, a: &mut Args) -> Option<String> {
             let mut f = s3::PolygonalFeature::default();
             s3::PolygonalFeatureMap::local_support_feature(&s, &Unit::new_unchecked(d), &mut f);
             super::ffeat3(&f) }
+        "polygon_featid" => { let n = a.u(); let p: Vec<d2::Point<f64>> = (0..n).map(|_| d2::p(a)).collect(); let d = d2::v(a);
+            let s = crate::p2::shape::ConvexPolygon::from_convex_polyline_unmodified(p).expect("from_convex_polyline_unmodified");
+            let id = s.support_feature_id_toward(&crate::p2::na::Unit::new_unchecked(d));
+            let n = match s.feature_normal(id) { Some(n) => d2::fv(&n), None => "none".into() };
+            let t = match id { crate::p2::shape::FeatureId::Vertex(c) => format!("v{}", c), crate::p2::shape::FeatureId::Face(c) => format!("f{}", c), _ => "u".into() };
+            format!("{} {}", t, n) }
         "polyhedron_featid" => { let s = polyhedron(a); let d = d3::v(a);
             let id = s.support_feature_id_toward(&Unit::new_unchecked(d));
             let n = match s.feature_normal(id) { Some(n) => d3::fv(&n), None => "none".into() };
@@ -176,6 +182,27 @@ pub fn gen(r: &mut Rng, it: usize, lat: bool, v: &mut Vec<(String, String)>) {
             v.push(("polyhedron_feature".into(), format!("{} {}", ph, d3::hv(&d))));
             v.push(("polyhedron_featid".into(), format!("{} {}", ph, d3::hv(&d))));
         }
+    }
+    // ---- ConvexPolygon feature ids: every edge normal in turn, rotated by 0 / around one degree / half-way to the next
+    {
+        let pg = super::gen_polygon(r, lat);
+        let hp = format!("{} {}", pg.len(), pg.iter().map(d2::hp).collect::<Vec<_>>().join(" "));
+        let np = pg.len();
+        let mut dirs = vec![super::gen_unit2(r, lat), super::gen_unit2(r, lat)];
+        for e in [np - 1, 0, it % np] {
+            let t = pg[(e + 1) % np] - pg[e];
+            let nrm = d2::Vector::new(t.y, -t.x);
+            if nrm.norm() > 0.0 {
+                let u = nrm.normalize();
+                for deg in [0.0f64, 0.5, 0.999, 1.0, 1.001, -0.999, -1.001, 2.0, -3.0] {
+                    let a = deg.to_radians(); let (sn, cs) = a.sin_cos();
+                    dirs.push(d2::Vector::new(cs * u.x - sn * u.y, sn * u.x + cs * u.y));
+                }
+                let c = pg[e].coords - pg.iter().fold(d2::Vector::zeros(), |s, q| s + q.coords) / np as f64;
+                if c.norm() > 0.0 { dirs.push(c.normalize()); }
+            }
+        }
+        for d in dirs { v.push(("polygon_featid".into(), format!("{} {}", hp, d2::hv(&d)))); }
     }
     // ---- CSO points: every ordered pair of shape kinds is met over the iterations
     for k in 0..3 {
